@@ -314,9 +314,16 @@ def enum_norm_sites(repo, funcs=None):
                 norm.setdefault(l.func.value.id, n)
         if norm or raw:
             n_fn += 1
-        # a local bound to the normalised form and compared instead (t = p.lower(); t == 'x') is fine; so is rebinding p itself
+        # a local bound to the normalised form and compared instead (t = p.lower(); t == 'x') is fine; so is rebinding p itself; and when the
+        # *raw* comparison is the one that admits values (it guards a raise), only exact spellings get through and the normalised test is harmless
+        raw_validates = set()
+        for n in ast.walk(fn):
+            if isinstance(n, ast.If) and any(isinstance(x, ast.Raise) for b in (n.body, n.orelse) for st in b for x in ast.walk(st)):
+                for c in ast.walk(n.test):
+                    if isinstance(c, ast.Compare) and isinstance(c.left, ast.Name) and c.left.id in params and is_strs(c.comparators[0]):
+                        raw_validates.add(c.left.id)
         for p_ in sorted(set(norm) & set(raw)):
-            if p_ not in rebound:
+            if p_ not in rebound and p_ not in raw_validates:
                 out.append(("%s.%s" % (mn, q), p_, norm[p_], raw[p_]))
     return out, n_fn
 
